@@ -179,15 +179,14 @@ Section Theorems.
   (* the header names no recognised scheme: the first record's column names
      become the column line.  The writer accepting the first record implies
      the format can carry them (repaired writer: a first name starting with
-     '#' or a name containing TAB/CR/LF is refused with ValueError); provided
-     there is at least one, the reader settles on exactly those names, returns one record per
+     '#', a name containing TAB/CR/LF, or a record without columns is refused
+     with ValueError); the reader settles on exactly those names, returns one record per
      record with the same names in the same order, each value being the text
      that was written, without validation errors; the second write gives the
      same entries *)
   Theorem round_trip_schemeless hl m0 lg0 l0 (h : header) m (r1 : mrec) (rest : list mrec) (translate : bool) :
     header_from_lines registry hl m0 lg0 = (l0, Ok h) -> Forall no_crlf hl ->
     h_scheme registry (hrecs h) = Ok None ->
-    record_names r1 <> [] ->
     let s := no_restrictions (record_names r1) in
     let rs := r1 :: rest in
     let w1 := write_file h (Some m) rs in
@@ -204,10 +203,10 @@ Section Theorems.
               (run_recs (rt_read rt)) (accepted_records w1) /\
       rt_second rt = Some w2 /\ wr_clean w2 = true /\ wr_text w2 = wr_text w1.
   Proof.
-    intros Hh Hhl Hsch Hne s rs w1 Hclean Hord rt.
+    intros Hh Hhl Hsch s rs w1 Hclean Hord rt.
     pose proof (clean_first_writable sem registry h m r1 rest Hsch Hclean) as Hw.
-    pose proof (names_writable_carriable (record_names r1) Hne Hw) as Hcar.
-    assert (Ht : s_truthy s = true) by (apply norestr_truthy; exact Hne).
+    pose proof (names_writable_carriable (record_names r1) Hw) as Hcar.
+    assert (Ht : s_truthy s = true) by (apply norestr_truthy; destruct Hcar; assumption).
     assert (ND : NoDup (s_names s)) by apply no_restrictions_nodup.
     assert (Hcar' : carriable (s_names s)) by now apply norestr_carriable.
     assert (Hex : Forall (rereadable sem value_hazard s) rs).
